@@ -7,6 +7,7 @@ import (
 	"fmt"
 	"sort"
 	"sync"
+	"time"
 
 	"ergo.services/ergo/gen"
 
@@ -259,7 +260,7 @@ func runAliasLoop() {
 	repeats, first, dist, fails := 0, -1, 0, 0
 	var w gen.Alias
 	var ferr error
-	ran, werr := inProc(h, func(p *actors.Probe) error {
+	ran, werr := inProcT(h, func(p *actors.Probe) error {
 		for i := 0; i < n; i++ {
 			a, err := p.CreateAlias()
 			if err != nil {
@@ -278,7 +279,7 @@ func runAliasLoop() {
 			p.DeleteAlias(a)
 		}
 		return nil
-	})
+	}, 5*time.Minute)
 	if !ran || werr != nil {
 		r.inconclusive("watchdog: alias loop did not run (%v)", werr)
 	}
@@ -386,7 +387,7 @@ func runAliasMix() {
 		wg.Add(1)
 		go func(w int, h *handle) {
 			defer wg.Done()
-			inProc(h, func(p *actors.Probe) error {
+			inProcT(h, func(p *actors.Probe) error {
 				for i := 0; i < n; i++ {
 					if w%2 == 0 {
 						a, err := p.CreateAlias()
@@ -415,7 +416,7 @@ func runAliasMix() {
 					}
 				}
 				return nil
-			})
+			}, 5*time.Minute)
 		}(w, h)
 	}
 	wg.Wait()
@@ -483,7 +484,7 @@ func runRefPublic() {
 		go func(w int, h *handle) {
 			defer wg.Done()
 			ev := gen.Atom(fmt.Sprintf("idtoken_%d", w))
-			inProc(h, func(p *actors.Probe) error {
+			inProcT(h, func(p *actors.Probe) error {
 				for i := 0; i < n; i++ {
 					if w%2 == 0 {
 						p.Call(callee.pid, i)
@@ -496,7 +497,7 @@ func runRefPublic() {
 					}
 				}
 				return nil
-			})
+			}, 5*time.Minute)
 		}(w, h)
 	}
 	wg.Wait()
